@@ -146,6 +146,8 @@ func (c Commands) MarshalBinary() ([]byte, error) {
 func (c *Commands) UnmarshalBinary(uplink bool, data []byte) error {
 	var i int
 
+	*c = nil
+
 	for i < len(data) {
 		var cmd Command
 		if err := cmd.UnmarshalBinary(uplink, data[i:]); err != nil {
